@@ -206,6 +206,12 @@ pub fn field_check_owned(bytes: &[u8], owners: (u8, u8), base_ok: bool, props: &
     // failure may stem from the foreign field's value
     let own = |o: u8| o == 0 || props.contains(&o);
     let mine = base_ok && (owners.0 == 255 || ((props.contains(&owners.0) || props.contains(&owners.1)) && own(owners.0) && own(owners.1)));
+    // an unexpected rejection / panic is ALSO this property's violation when the statement quantifies over every frame of
+    // this leaf ("every altitude code in types 9-18 and 20-22 decodes ...", "for every airborne velocity report ..."):
+    // that is the case for the payload properties C06-C10 on the leaves where they have a judged field. C04 speaks about
+    // accepted frames only, so it keeps to the narrow rule.
+    let leaf_owned = r.fields.iter().any(|f| f.def.prop != 4 && f.def.prop != 0 && f.def.kind != Kind::Opaque && props.contains(&f.def.prop));
+    let mine_failure = mine || leaf_owned;
     match decode(bytes) {
         Decoded::Ok(frame) => {
             loc.inc("accepted");
@@ -227,7 +233,7 @@ pub fn field_check_owned(bytes: &[u8], owners: (u8, u8), base_ok: bool, props: &
         Decoded::Err(e) => {
             if r.layout.may_reject {
                 loc.inc("permitted_rejections");
-            } else if mine {
+            } else if mine_failure {
                 loc.viol(oracle, format!("{}:rejected", r.layout.leaf), hex(bytes), "Ok(frame)".into(), format!("Err({e})"));
             } else {
                 loc.inc("decode_failures_left_to_C01_C02");
@@ -235,7 +241,7 @@ pub fn field_check_owned(bytes: &[u8], owners: (u8, u8), base_ok: bool, props: &
             None
         }
         Decoded::Panic(p) => {
-            if mine {
+            if mine_failure {
                 loc.viol(oracle, format!("{}:panic", r.layout.leaf), hex(bytes), "Ok(frame)".into(), format!("panic: {p}"));
             } else {
                 loc.inc("decode_failures_left_to_C01_C02");
